@@ -17,7 +17,7 @@ ID = "C19"
 RULE = ("Each case is one market with a generated tick size (powers of two 2^-10..2^3, decimal ticks 0.1/0.01/1e-5/0.3/7, "
         "arbitrary floats in [1e-5, 50]) and up to 40 limit orders per side whose prices are on the grid (k*tick in "
         "floats and in exact arithmetic), within a few ulps of a grid point, or off the grid by a generated fraction of a "
-        "tick, with price/tick up to 2^40. The accepted price (OrderLog and Order) is compared in exact rational "
+        "tick (including prices below one tick), with price/tick up to 2^40. The accepted price (OrderLog and Order) is compared in exact rational "
         "arithmetic: exact multiple -> unchanged; power-of-two tick -> exactly floor/ceil(P/T)*T; otherwise on the grid "
         "up to 2^-50 relative, never more aggressive than P by more than P*2^-50, moved by < T + P*2^-50. Non-trivial = "
         "case containing an off-grid price; distinct by hash of (tick, prices).")
@@ -46,6 +46,8 @@ def cases(draw):
             p = (k + draw(st.floats(min_value=0.0, max_value=1.0, allow_nan=False))) * tick
         elif kind == 3:
             p = draw(st.floats(min_value=tick, max_value=min(tick * 2.0 ** 40, 1e12), allow_nan=False))
+        elif kind == 4 and draw(st.booleans()):
+            p = tick * draw(st.floats(min_value=1e-6, max_value=0.999999, allow_nan=False))  # below one tick
         else:
             p = round(k * tick, draw(st.integers(0, 6)))  # what a decimal reader would type
         if not (p > 0) or not math.isfinite(p):
@@ -70,6 +72,8 @@ def check_case(case):
         if o.price != log.price:
             raise Violation("C19.order_vs_log_price", f"order carries {o.price!r}, log {log.price!r}")
         from fractions import Fraction
+        if p < tick:
+            classes.add("below_one_tick")
         if Fraction(p) % Fraction(tick) != 0:
             off += 1
             classes.add("offgrid_buy" if is_buy else "offgrid_sell")
